@@ -2,6 +2,9 @@
    Names are arbitrary byte strings (including non-UTF-8). *)
 From XcpModel Require Import Base Backup.
 From XcpProofs Require Import BackupProofs.
+From XcpModel Require Import Extracted.
+From XcpProofs Require Import ExtractedOk.
+From Coq Require Import String.
 
 (* the number chosen exceeds every backup number present for that name, and
    the chosen backup name does not exist yet (so rename never replaces one) *)
@@ -100,6 +103,15 @@ Example C09_nonvacuous :
   end.
 Proof. vm_compute. repeat split. Qed.
 
+(* ---- tie to the current source (translator) ---- *)
+Theorem C09_src_next_number : forall base entries,
+  next_backup_num base entries =
+  (let n := x_next_backup_from_max (fold_right N.max x_backup_max_default (backup_nums base entries)) in
+   if n <? U64 then Some n else None).
+Proof. exact x_next_backup_ok. Qed.
+Theorem C09_src_suffix_pattern : x_backup_pattern = "^\~(\d+)\~$"%string.
+Proof. exact x_backup_pattern_ok. Qed.
+
 Print Assumptions C09_backup_number_fresh.
 Print Assumptions C09_backup_names_exact.
 Print Assumptions C09_overwrite_preserves.
@@ -107,3 +119,5 @@ Print Assumptions C09_history_never_touches_existing.
 Print Assumptions C09_auto_iff_backup_exists.
 Print Assumptions C09_kill_keeps_old.
 Print Assumptions C09_no_overflow_below_max.
+Print Assumptions C09_src_next_number.
+Print Assumptions C09_src_suffix_pattern.
